@@ -35,9 +35,9 @@ CLAIMS = {
         note="Trusted: spec/blockstring.py (BlockStringValue transcription), spec/lexical.py, contracts/parser_map.py (node kinds and slot order per "
              "nonterminal). parse_block_string itself is bounded only."),
     "C03": dict(
-        category="other", engine="static+rtc",
-        technique="static slot-coverage obligations on the printer (every slot of every node kind is read by its print method; all trees) + run-time contracts (round-trip, fix-point, determinism) on enumerated parser-produced trees; no deductive obligation within reach",
-        text="All trees: each of the 108 (node kind, slot) pairs is read by the print method the dispatcher selects - necessary for the round trip; the 3 unread member-description slots are the listed finding. Bounded stand-in only: for every accepted text of the derivation corpus and a string-payload family (quoted and block form, 8 syntactic "
+        category="other", engine="pyvc+static+rtc",
+        technique="WP/VC obligations on the lexer's four string decoders (Engine A, z3) + static slot-coverage obligations on the printer (every slot of every node kind is read by its print method; all trees) + run-time contracts (round-trip, fix-point, determinism) on enumerated parser-produced trees; no deductive obligation within reach",
+        text="All texts: the lexer decodes quoted and block strings as the lexical specification says (116 obligations; the parse half of the law). All trees: each of the 108 (node kind, slot) pairs is read by the print method the dispatcher selects - necessary for the round trip; the 3 unread member-description slots are the listed finding. Bounded stand-in only: for every accepted text of the derivation corpus and a string-payload family (quoted and block form, 8 syntactic "
              "positions) and 5 indent settings: printing never raises, is deterministic, output parses, parse(print(t)) == t, print is a fix-point.",
         note="Not a proof: the printer's encoders (json.dumps, str.replace) are outside the VC generator's subset. Known finding: member descriptions "
              "dropped by print_ast (pinned by tests)."),
